@@ -1,6 +1,7 @@
 package main
 
 import (
+	"encoding/json"
 	"bytes"
 	"fmt"
 	"os"
@@ -281,6 +282,13 @@ func runC07(env *Env) {
 		}
 		cases[i] = c
 	}
+	for _, raw := range corpusCases(env, "C07") {
+		c := &C07Case{}
+		if json.Unmarshal(raw, c) == nil {
+			cases = append([]*C07Case{c}, cases...)
+		}
+	}
+	n = len(cases)
 	models := startModels(env)
 	wvlib.ParallelDo(n, env.Workers, func(i int) {
 		m := <-models
